@@ -90,6 +90,10 @@ def _work(item):
     else:
         summ["events_tail"] = out["rec"].events[-12:]
     summ["convention_errors"] = out["rec"].extra.get("convention_errors", [])
+    # arrays handed to the callback must not be touched by the solver afterwards
+    changed = [k for (obj, was, k) in out["rec"].extra.get("cb_kept", []) if not np.array_equal(np.asarray(obj, float), was, equal_nan=True)]
+    summ["callback_arrays_modified_later"] = changed[:3]
+    summ["callback_arrays_kept"] = len(out["rec"].extra.get("cb_kept", []))
     return summ
 
 
